@@ -101,5 +101,33 @@ class SymDict:
         kv = self._find(k)
         return default if kv is None else kv[1]
 
+    def setdefault(self, k, default=None):
+        kv = self._find(k)
+        if kv is None:
+            self[k] = default
+            kv = self._find(k)
+        return kv[1]
+
+    def pop(self, k, *default):
+        kv = self._find(k)
+        if kv is None:
+            if default:
+                return default[0]
+            raise KeyError(k)
+        self.items_.remove(kv)
+        return kv[1]
+
+    def keys(self):
+        return [k for k, _ in self.items_]
+
+    def values(self):
+        return [v for _, v in self.items_]
+
+    def items(self):
+        return [(k, v) for k, v in self.items_]
+
+    def __iter__(self):
+        return iter(self.keys())
+
     def __len__(self):
         return len(self.items_)
